@@ -115,6 +115,8 @@ type Stage struct {
 	ChunkIns  []Param
 	ChunkOuts []Param
 	Retain    []string
+	// Volatile is the stage-level resource annotation: "", "strict", "false".
+	Volatile string
 	// Fn names the stage function in the library (defaults to Name).
 	Fn string
 }
@@ -401,6 +403,9 @@ func (p *Program) MRO() string {
 			writeParams(&b, "out", s.ChunkOuts)
 		}
 		b.WriteString(")")
+		if s.Volatile != "" {
+			b.WriteString(" using (\n    volatile = " + s.Volatile + ",\n)")
+		}
 		if len(s.Retain) > 0 {
 			b.WriteString(" retain (\n")
 			for _, r := range s.Retain {
